@@ -307,7 +307,17 @@ class SimpleJSONRPCDispatcher(SimpleXMLRPCDispatcher, object):
             response = self._unmarshaled_dispatch(request, dispatch_method)
             if response is not None:
                 # Compute the string representation of the dictionary/list
-                return jsonrpclib.jdumps(response, self.encoding)
+                try:
+                    return jsonrpclib.jdumps(response, self.encoding)
+                except Exception as ex:
+                    # The response can't be marshaled (invalid ID, ...)
+                    fault = Fault(
+                        -32603,
+                        "{0}:{1}".format(type(ex).__name__, ex),
+                        config=self.json_config,
+                    )
+                    _logger.error("Error marshaling response: %s", fault)
+                    return fault.response()
             else:
                 # No result (notification)
                 return ""
